@@ -1,0 +1,176 @@
+//! Verification hooks, only compiled with `--cfg a10_verif`.
+//!
+//! Nothing in here changes the behaviour of the crate. It provides:
+//!  * a system call table ([`SysTable`]) that the raw io_uring system call
+//!    wrappers consult first, so an in-process simulated kernel can answer
+//!    instead of the real one,
+//!  * a tracer ([`emit`]) that hands small event records to an installed sink
+//!    or appends them to the file named by `A10_VERIF_TRACE`,
+//!  * scheduling points ([`yield_point`]) for a deterministic scheduler.
+
+#![allow(missing_docs, clippy::missing_safety_doc, clippy::must_use_candidate)]
+
+use std::ffi::c_void;
+use std::io::Write;
+use std::sync::atomic::{AtomicPtr, AtomicU64, AtomicUsize, Ordering};
+use std::sync::{Mutex, OnceLock};
+
+/// Result convention of the table entries: `None` means "not mine, do the real
+/// system call", `Some(n)` with `n >= 0` is a successful return value and
+/// `Some(-errno)` a failure.
+pub struct SysTable {
+    pub setup: unsafe fn(entries: u32, params: *mut c_void) -> Option<i64>,
+    pub enter: unsafe fn(
+        fd: i32,
+        to_submit: u32,
+        min_complete: u32,
+        flags: u32,
+        arg: *const c_void,
+        size: usize,
+    ) -> Option<i64>,
+    pub register:
+        unsafe fn(fd: i32, opcode: u32, arg: *const c_void, nr_args: u32) -> Option<i64>,
+    /// `Some(-errno)` to fail, `None` to do the real call. (A successful
+    /// simulated mapping is never needed.)
+    pub mmap: unsafe fn(len: usize, prot: i32, flags: i32, fd: i32, offset: i64) -> Option<i64>,
+    /// Observation only (called before the real call), the return value is
+    /// handled like the others.
+    pub munmap: unsafe fn(addr: *mut c_void, len: usize) -> Option<i64>,
+    pub close: unsafe fn(fd: i32) -> Option<i64>,
+    /// Called after a real `mmap` succeeded, observation only.
+    pub mapped: unsafe fn(addr: *mut c_void, len: usize, fd: i32, offset: i64),
+}
+
+static TABLE: AtomicPtr<SysTable> = AtomicPtr::new(std::ptr::null_mut());
+
+/// Install (or with `None` remove) the system call table.
+pub fn install_sys_table(table: Option<&'static SysTable>) {
+    let ptr = table.map_or(std::ptr::null_mut(), |t| std::ptr::from_ref(t).cast_mut());
+    TABLE.store(ptr, Ordering::SeqCst);
+}
+
+pub fn sys_table() -> Option<&'static SysTable> {
+    let ptr = TABLE.load(Ordering::SeqCst);
+    if ptr.is_null() {
+        None
+    } else {
+        // SAFETY: only ever set from a `&'static`.
+        Some(unsafe { &*ptr })
+    }
+}
+
+/// Turn a table answer into the libc convention (`-1` + `errno`).
+pub fn ret(value: i64) -> i64 {
+    if value < 0 {
+        unsafe { *libc::__errno_location() = (-value) as i32 };
+        -1
+    } else {
+        value
+    }
+}
+
+/// A trace record. `name` is the event, `f` up to six scalar fields, `raw` an
+/// optional small blob (the 64 bytes of a submission entry).
+#[derive(Clone, Debug)]
+pub struct Event<'a> {
+    pub name: &'static str,
+    pub f: [u64; 6],
+    pub raw: &'a [u8],
+}
+
+pub type Sink = fn(seq: u64, ev: &Event<'_>);
+
+static SINK: AtomicUsize = AtomicUsize::new(0);
+static SEQ: AtomicU64 = AtomicU64::new(0);
+static FILE: OnceLock<Option<Mutex<std::fs::File>>> = OnceLock::new();
+
+/// Install (or remove) the event sink.
+pub fn install_sink(sink: Option<Sink>) {
+    SINK.store(sink.map_or(0, |s| s as usize), Ordering::SeqCst);
+}
+
+fn trace_file() -> Option<&'static Mutex<std::fs::File>> {
+    FILE.get_or_init(|| {
+        let path = std::env::var_os("A10_VERIF_TRACE")?;
+        let mut path = std::path::PathBuf::from(path);
+        if path.is_dir() {
+            path.push(format!("trace.{}.ndjson", std::process::id()));
+        }
+        std::fs::OpenOptions::new()
+            .create(true)
+            .append(true)
+            .open(path)
+            .ok()
+            .map(Mutex::new)
+    })
+    .as_ref()
+}
+
+/// Emit an event. The sequence number is taken here, so call this while
+/// holding the lock that protects the state the event describes.
+pub fn emit(name: &'static str, f: [u64; 6]) {
+    emit_raw(name, f, &[]);
+}
+
+pub fn emit_raw(name: &'static str, f: [u64; 6], raw: &[u8]) {
+    let sink = SINK.load(Ordering::SeqCst);
+    if sink != 0 {
+        let seq = SEQ.fetch_add(1, Ordering::SeqCst);
+        // SAFETY: only ever set from a `Sink`.
+        let sink: Sink = unsafe { std::mem::transmute::<usize, Sink>(sink) };
+        sink(seq, &Event { name, f, raw });
+        return;
+    }
+    if let Some(file) = trace_file() {
+        let mut file = match file.lock() {
+            Ok(file) => file,
+            Err(err) => err.into_inner(),
+        };
+        // Taken under the file lock so the file order is the sequence order.
+        let seq = SEQ.fetch_add(1, Ordering::SeqCst);
+        let tid = unsafe { libc::syscall(libc::SYS_gettid) };
+        let mut line = format!(
+            "{{\"seq\":{seq},\"tid\":{tid},\"ev\":\"{name}\",\"f\":[\"{}\",\"{}\",\"{}\",\"{}\",\"{}\",\"{}\"]",
+            f[0], f[1], f[2], f[3], f[4], f[5]
+        );
+        if !raw.is_empty() {
+            line.push_str(",\"raw\":\"");
+            for b in raw {
+                line.push_str(&format!("{b:02x}"));
+            }
+            line.push('"');
+        }
+        line.push_str("}\n");
+        _ = file.write_all(line.as_bytes());
+    }
+}
+
+/// Returns true if events go anywhere (to avoid computing fields for nothing).
+pub fn tracing() -> bool {
+    SINK.load(Ordering::SeqCst) != 0 || trace_file().is_some()
+}
+
+pub type Yield = fn(label: &'static str);
+
+static YIELD: AtomicUsize = AtomicUsize::new(0);
+
+/// Install (or remove) the scheduling callback.
+pub fn install_yield(callback: Option<Yield>) {
+    YIELD.store(callback.map_or(0, |s| s as usize), Ordering::SeqCst);
+}
+
+/// True if a scheduler is installed, in which case blocking lock
+/// acquisitions become `try_lock` + yield loops.
+pub fn scheduled() -> bool {
+    YIELD.load(Ordering::SeqCst) != 0
+}
+
+/// A scheduling point: a no-op unless a callback is installed.
+pub fn yield_point(label: &'static str) {
+    let callback = YIELD.load(Ordering::SeqCst);
+    if callback != 0 {
+        // SAFETY: only ever set from a `Yield`.
+        let callback: Yield = unsafe { std::mem::transmute::<usize, Yield>(callback) };
+        callback(label);
+    }
+}
